@@ -276,6 +276,14 @@ func (pr *progRender) render() string {
 		if s.Emitters == 0 {
 			return nil
 		}
+		if s.EmitShared && s.Emitters == 4 {
+			pr.pre = append(pr.pre,
+				fmt.Sprintf("commonEm := %s.EmitterStack(env.Em(0), env.Em(1), env.Em(2))", n.cff),
+				fmt.Sprintf("ownEm := %s.EmitterStack(commonEm, env.Em(3))", n.cff),
+				fmt.Sprintf("siblingEm := %s.EmitterStack(commonEm, env.Em(4)) // a second stack derived from the same nested stack; never used", n.cff),
+				"_ = siblingEm")
+			return []func() string{func() string { return n.cff + ".WithEmitter(" + pr.wrap("ownEm") + ")" }}
+		}
 		if s.EmitNest && s.Emitters >= 2 {
 			// first two emitters inside a nested stack, the rest separately
 			out = append(out, func() string {
